@@ -457,6 +457,7 @@ Proof.
     destruct (_ =? 0); [discriminate|]. destruct (64 <=? _); [discriminate|].
     destruct (_ =? _); intro H; [now injection H as <-|discriminate]. }
   unfold first_step_pgt.
+  destruct (pf_max_fields (pte_format pf) <? length fs)%nat; [discriminate|].
   destruct (first_step_pgt_generic ras root pf _ a) as [st0 s0] eqn:Eg.
   assert (Hok : st0 = OK -> at_level a (length fs - 1) s0 /\ s_as s0 = ras /\ s_base s0 = root).
   { intro Hst. apply Hshape. now apply (Hgen st0 s0). }
